@@ -39,6 +39,34 @@ fn root_fits(v: &Val) -> bool {
 	fits(DEFS, UTF8_VARIANT, None, &Vec::new(), &Ty::Ref(CLASS_FILE_ID), v)
 }
 
+/// the value lies outside the regions of the known JVMS defects (long/double pool entries, NestMembers, MethodParameters)
+fn root_avoids(v: &Val) -> bool {
+	avoids(DEFS, &|id, var| known_bad(CP_INFO_ID, id, var), &Ty::Ref(CLASS_FILE_ID), v)
+}
+
+/// JVMS conformance of what the implementation writes: the output is a well-framed class file for an independent reader
+fn jvms_oracle(full: bool, v: &Val, c: &ClassFile) -> Ans {
+	if !root_fits(v) || !(full || root_avoids(v)) { return Ans::out_of_domain(); }
+	let Some(b) = write_class(c) else { return Ans::fail("write-panics") };
+	if fvh::jvmsframe::class_file(false, &b) { Ans::pass() } else { Ans::fail("not-framed") }
+}
+
+/// byte round trip on the domain of well-framed class files (`known`: outside the known defect regions)
+fn rt_bytes_oracle(known: bool, b: &[u8]) -> Ans {
+	if !fvh::jvmsframe::class_file(known, b) { return Ans::out_of_domain(); }
+	match read_class(b) {
+		Ok(Some((c, rest))) => {
+			if rest != 0 { return Ans::fail("rest-not-empty"); }
+			match write_class(&c) {
+				Some(b2) => if b2 == b { Ans::pass() } else { Ans::fail("bytes-differ") },
+				None => Ans::fail("write-panics"),
+			}
+		}
+		Ok(None) => Ans::fail("read-err"),
+		Err(()) => Ans::fail("read-panics"),
+	}
+}
+
 fn exec(op: &str, args: &[Sexp]) -> Ans {
 	macro_rules! tr { ($e:expr) => { match $e { Ok(x) => x, Err(e) => return Ans::BadOp(e) } } }
 	macro_rules! class { ($s:expr) => {{
@@ -84,18 +112,35 @@ fn exec(op: &str, args: &[Sexp]) -> Ans {
 				Err(()) => Ans::fail("read-panics"),
 			}
 		}
-		("oracle-rt-bytes", [b]) => {
-			let b = tr!(b.as_bytes());
-			match read_class(&b) {
-				Ok(Some((c, rest))) => match write_class(&c) {
-					Some(mut b2) => {
-						b2.extend_from_slice(&b[b.len() - rest..]);
-						if b2 == b { Ans::pass() } else { Ans::fail("bytes-differ") }
-					}
-					None => Ans::fail("write-panics"),
-				},
-				_ => Ans::out_of_domain(),
+		("oracle-rt-bytes", [b]) => { let b = tr!(b.as_bytes()); rt_bytes_oracle(true, &b) }
+		("oracle-rt-bytes-full", [b]) => { let b = tr!(b.as_bytes()); rt_bytes_oracle(false, &b) }
+		("oracle-jvms", [v]) => { let (v, c) = class!(v); jvms_oracle(false, &v, &c) }
+		("oracle-jvms-full", [v]) => { let (v, c) = class!(v); jvms_oracle(true, &v, &c) }
+		// the hand-written class of `fvh::rawgolden` (fields addressed by name): its generic value and its bytes
+		("raw-golden", []) => {
+			let c = fvh::rawgolden::golden();
+			match write_class(&c) {
+				Some(b) => Ans::Ok(Sexp::list(vec![val_to_sexp(&to_val_ClassFile(&c)), Sexp::bytes(&b)])),
+				None => panic_ans(),
 			}
+		}
+		("raw-avoids", [v]) => { let (v, _) = class!(v); Ans::Ok(Sexp::bool(root_avoids(&v))) }
+		("jvms-frame", [k, b]) => {
+			let k = tr!(k.as_bool());
+			let b = tr!(b.as_bytes());
+			Ans::Ok(Sexp::bool(fvh::jvmsframe::class_file(k, &b)))
+		}
+		// `ConstsAgree` of the model (the checking reader accepts) = the implementation reads the bytes and writes the
+		// consumed prefix back unchanged (theorems write_read / consts_agree_of_write)
+		("raw-consts-agree", [b]) => {
+			let b = tr!(b.as_bytes());
+			Ans::Ok(Sexp::bool(match read_class(&b) {
+				Ok(Some((c, rest))) => match write_class(&c) {
+					Some(mut b2) => { b2.extend_from_slice(&b[b.len() - rest..]); b2 == b }
+					None => false,
+				},
+				_ => false,
+			}))
 		}
 		_ => Ans::BadOp("unknown op".into()),
 	}
@@ -116,6 +161,8 @@ struct G<'a> {
 	unfit_pm: usize,
 	/// one-shot boundary length for the next counted vector with this count width and a small element type
 	big: Option<(u8, usize)>,
+	/// keep out of the regions of the known JVMS defects (long/double pool entries, NestMembers, MethodParameters)
+	avoid_known: bool,
 	hits: std::collections::BTreeMap<String, u64>,
 }
 
@@ -199,7 +246,8 @@ impl G<'_> {
 		match &DEFS[id] {
 			DefD::Struct { body, .. } => Val::Node(0, self.body(body, depth, None)),
 			DefD::Enum { name, variants, .. } => {
-				let k = self.r.below(variants.len());
+				let mut k = self.r.below(variants.len());
+				while self.avoid_known && known_bad(CP_INFO_ID, id, &variants[k]) { k = self.r.below(variants.len()); }
 				let var = &variants[k];
 				self.hit(format!("variant:{}::{}", name, var.name));
 				let unfit = self.r.below(1000) < self.unfit_pm;
@@ -271,7 +319,9 @@ fn emit_value_ops(out: &mut Out, v: &Val, oracles: bool) {
 	if oracles {
 		out.op("oracle-len", &[s.clone()]);
 		out.op("oracle-rt-val", &[s.clone()]);
+		out.op("oracle-jvms", &[s.clone()]);
 	}
+	out.op("raw-avoids", &[s.clone()]);
 	out.op("raw-fits", &[s]);
 }
 
@@ -293,6 +343,10 @@ fn mutate(r: &mut Rng, b: &[u8], out: &mut Out) {
 		m[pos] = match r.below(5) { 0 => 0, 1 => 0xff, 2 => old.wrapping_add(1), 3 => old.wrapping_sub(1), _ => r.below(256) as u8 };
 		out.stats.hit(match i { 0 => "malformed:magic", 1 => "malformed:pool-count", _ => "malformed:random-byte" });
 		out.op("raw-read", &[hex(&m)]);
+		// a mutant that is still a well-framed class file must round-trip; `ConstsAgree` is compared on all of them
+		out.op("oracle-rt-bytes", &[hex(&m)]);
+		out.op("raw-consts-agree", &[hex(&m)]);
+		if i == 4 { out.op("jvms-frame", &[Sexp::bool(false), hex(&m)]); }
 	}
 }
 
@@ -303,7 +357,7 @@ fn gen(r: &mut Rng, tier: Tier, out: &mut Out) {
 	loop {
 		let mut g = G {
 			r: &mut *r, names: vec![], plain_utf8: vec![], non_utf8: vec![], pool_len: 0,
-			max_depth: 3 + (i % 3), unfit_pm: if i % 4 == 3 { 60 } else { 0 }, big: None, hits: std::mem::take(&mut hits),
+			max_depth: 3 + (i % 3), unfit_pm: if i % 4 == 3 { 60 } else { 0 }, big: None, avoid_known: i % 3 != 0, hits: std::mem::take(&mut hits),
 		};
 		if i % 16 == 5 {
 			let choices: &[(u8, usize)] = &[(1, 255), (1, 256), (2, 255), (2, 256), (2, 65535), (2, 65536), (4, 65536), (2, 0), (2, 1)];
@@ -313,16 +367,20 @@ fn gen(r: &mut Rng, tier: Tier, out: &mut Out) {
 		hits = std::mem::take(&mut g.hits);
 		let fit = root_fits(&v);
 		out.stats.hit(if fit { "class:fits" } else { "class:does-not-fit" });
+		if fit { out.stats.hit(if root_avoids(&v) { "class:fits-outside-known-regions" } else { "class:fits-in-known-region" }); }
 		emit_value_ops(out, &v, true);
 		if let Some(c) = from_val_ClassFile(&v) {
 			if let Some(b) = write_class(&c) {
 				out.stats.hit(&format!("bytes:{}", match b.len() { 0..=255 => "<256", 256..=1023 => "<1k", 1024..=4095 => "<4k", _ => ">=4k" }));
+				let framed = fvh::jvmsframe::class_file(true, &b);
+				out.stats.hit(if framed { "bytes:well-framed-outside-known-regions" } else { "bytes:not-in-rt-bytes-domain" });
+				out.op("oracle-rt-bytes", &[hex(&b)]);
+				out.op("jvms-frame", &[Sexp::bool(true), hex(&b)]);
+				out.op("jvms-frame", &[Sexp::bool(false), hex(&b)]);
 				if b.len() < 20000 {
 					out.op("raw-read", &[hex(&b)]);
-					out.op("oracle-rt-bytes", &[hex(&b)]);
+					out.op("raw-consts-agree", &[hex(&b)]);
 					mutate(r, &b, out);
-				} else {
-					out.op("oracle-rt-bytes", &[hex(&b)]);
 				}
 			} else { out.stats.hit("class:write-panics"); }
 		}
@@ -335,6 +393,15 @@ fn gen(r: &mut Rng, tier: Tier, out: &mut Out) {
 		if i >= rounds && (min_hits >= 3 || i >= 4 * rounds) { break; }
 	}
 	for (k, n) in hits { out.stats.add(&k, n); }
+
+	// the hand-written class whose fields are addressed by name (catches reordered fields of equal width)
+	out.stats.hit("golden:named-fields-class");
+	out.op("raw-golden", &[]);
+	{
+		let c = fvh::rawgolden::golden();
+		emit_value_ops(out, &to_val_ClassFile(&c), true);
+		if let Some(b) = write_class(&c) { out.op("raw-read", &[hex(&b)]); out.op("raw-consts-agree", &[hex(&b)]); }
+	}
 
 	// hand-made edge cases: empty input, header only, pool count 0 (u16 underflow in `constant_pool_count - 1`)
 	for b in [&[][..], &[0xca, 0xfe, 0xba, 0xbe][..], &[0xca, 0xfe, 0xba, 0xbe, 0, 0, 0, 52, 0, 0][..],
@@ -350,16 +417,20 @@ fn gen(r: &mut Rng, tier: Tier, out: &mut Out) {
 		if p.extension().and_then(|e| e.to_str()) != Some("class") { continue; }
 		let Ok(b) = std::fs::read(&p) else { continue };
 		let name = p.file_name().and_then(|n| n.to_str()).unwrap_or("");
-		// classes whose name starts with `kf_` lie in the region of the known defects (long/double pool entries,
-		// NestMembers length, MethodParameters count): exercised by plain correspondence only, no oracle
-		let known_region = name.starts_with("kf_");
-		out.stats.hit(if known_region { "corpus:javac-known-defect-region" } else { "corpus:javac" });
+		// classes whose name starts with `kf_` were written to lie in the region of a known defect (long/double pool
+		// entries, NestMembers, MethodParameters).  No special treatment: the domain predicates of the oracles decide.
+		let in_domain = fvh::jvmsframe::class_file(true, &b);
+		out.stats.hit(if in_domain { "corpus:javac-in-domain" } else { "corpus:javac-known-defect-region" });
+		if in_domain && name.starts_with("kf_") { out.stats.hit("corpus:kf-file-outside-known-regions"); }
 		out.op("raw-read", &[hex(&b)]);
-		if !known_region { out.op("oracle-rt-bytes", &[hex(&b)]); }
+		out.op("jvms-frame", &[Sexp::bool(false), hex(&b)]);
+		out.op("jvms-frame", &[Sexp::bool(true), hex(&b)]);
+		out.op("oracle-rt-bytes", &[hex(&b)]);
+		out.op("raw-consts-agree", &[hex(&b)]);
 		if let Ok(Some((c, _))) = read_class(&b) {
-			emit_value_ops(out, &to_val_ClassFile(&c), !known_region);
+			emit_value_ops(out, &to_val_ClassFile(&c), true);
 		}
-		if !known_region { mutate(r, &b, out); }
+		mutate(r, &b, out);
 	}
 }
 
